@@ -1498,7 +1498,7 @@ class Gen:
             self.emit({"op": "model_meta", "key": "mk2", "val": "mv2"})
         elif k == "func_set" and self.funcs:
             f = r.choice(self.funcs)[0]
-            field = r.choice(["name", "doc_string", "overload"])
+            field = r.choice(["name", "doc_string", "overload"] if self.env.model.ir_version >= 10 else ["name", "doc_string"])
             self.emit({"op": "func_set", "f": f, "field": field,
                        "val": {"name": "Frenamed", "doc_string": "fdoc", "overload": "ov2"}[field]})
 
@@ -2321,7 +2321,7 @@ def _parse_lists(out: str) -> list:
 
 def correspondence(ck, terms: list, tag: str) -> dict:
     """Predicate name -> indices (into terms) on which it is false."""
-    files, chunk = [], 100
+    files, chunk = [], max(40, min(110, (len(terms) + 3) // 4))
     for i in range(0, len(terms), chunk):
         text = CASE_HEADER_C03 + (
             "Definition cases : list (list (N * N) * heap * model * obs * option mproto * obs * option obs * bool) :=\n  "
@@ -2329,7 +2329,9 @@ def correspondence(ck, terms: list, tag: str) -> dict:
         for _, body in PREDICATES:
             text += f"Eval vm_compute in (failing (fun c => let '(np, h, m, o0, q, o1, o2, f) := c in {body}) cases).\n"
         files.append((f"{tag}_{i // chunk}", text))
-    outs = ck.coq_eval_many(files)
+    outs = []
+    for i in range(0, len(files), 4):                # at most 4 coqc processes at a time
+        outs += ck.coq_eval_many(files[i:i + 4])
     bad = {name: [] for name, _ in PREDICATES}
     for k, (rc, out) in enumerate(outs):
         if rc != 0:
@@ -2548,9 +2550,11 @@ def run(ck) -> None:
             recipe = recipes[term_idx[j]][0]
             diverging.append(recipe)
             r2 = run_case(recipe, want_term=False)
+            path = ck.write_replay({"kind": "correspondence-break", "predicate": name, "recipe": recipe},
+                                   tag=f"corr-{name}-{j}")
             ck.broken(f"correspondence:{name}", json.dumps({
-                "cases_failing": len(lst), "recipe": recipe, "conditions": r2["conds"], "outcome": r2.get("outcome"),
-                "model": describe_model(r2["model"])[:1500]}))
+                "cases_failing": len(lst), "recipe_file": path, "conditions": r2["conds"], "outcome": r2.get("outcome"),
+                "model": describe_model(r2["model"])[:2500]}))
     replay_known(ck)
     reported = set()
     for recipe, msgs in failures:
